@@ -169,30 +169,37 @@ type Chooser interface {
 	Choose(n int, label string) int
 }
 
-// PoolPolicy is set by worlds per run; nil Tape means "behave like sync.Pool".
-var PoolPolicy struct {
+type poolPolicy struct {
 	mu   sync.Mutex
-	Tape Chooser
-	// Mode: 0 LIFO, 1 random released object, 2 always fresh, 3 tape decides per Get.
-	Mode int
-	Gets, Reused, Fresh int64
+	tape Chooser
+	// mode: 0 LIFO, 1 random released object, 2 always fresh, 3 tape decides per Get.
+	mode                int
+	gets, reused, fresh int64
 }
 
-// SetPoolPolicy installs the pool behaviour for the coming run and empties all pools
-// (epoch change).
+// policy is nil outside deciding runs: pools then behave exactly like sync.Pool, and
+// the check is a lock-free load so that the shim adds no happens-before edges between
+// tasks (which would blind the race detector in burst runs).
+var policy atomic.Pointer[poolPolicy]
+
+// SetPoolPolicy installs the pool behaviour for the coming run (nil tape = real sync.Pool).
 func SetPoolPolicy(t Chooser, mode int) {
-	PoolPolicy.mu.Lock()
-	PoolPolicy.Tape = t
-	PoolPolicy.Mode = mode
-	PoolPolicy.Gets, PoolPolicy.Reused, PoolPolicy.Fresh = 0, 0, 0
-	PoolPolicy.mu.Unlock()
+	if t == nil {
+		policy.Store(nil)
+		return
+	}
+	policy.Store(&poolPolicy{tape: t, mode: mode})
 }
 
 // PoolCounters returns (gets, reused, fresh) since SetPoolPolicy.
 func PoolCounters() (int64, int64, int64) {
-	PoolPolicy.mu.Lock()
-	defer PoolPolicy.mu.Unlock()
-	return PoolPolicy.Gets, PoolPolicy.Reused, PoolPolicy.Fresh
+	p := policy.Load()
+	if p == nil {
+		return 0, 0, 0
+	}
+	p.mu.Lock()
+	defer p.mu.Unlock()
+	return p.gets, p.reused, p.fresh
 }
 
 // Pool has sync.Pool's shape. Under a policy, Get returns any previously released
@@ -200,32 +207,30 @@ func PoolCounters() (int64, int64, int64) {
 type Pool struct {
 	New func() any
 
+	once  sync.Once
 	real  sync.Pool
 	items []any
 	ep    int64
 }
 
 func (p *Pool) Get() any {
-	PoolPolicy.mu.Lock()
-	t := PoolPolicy.Tape
-	if t == nil {
-		PoolPolicy.mu.Unlock()
-		if p.real.New == nil && p.New != nil {
-			p.real.New = p.New
-		}
+	pol := policy.Load()
+	if pol == nil {
+		p.once.Do(func() { p.real.New = p.New })
 		return p.real.Get()
 	}
-	defer PoolPolicy.mu.Unlock()
+	pol.mu.Lock()
+	defer pol.mu.Unlock()
 	if e := epoch.Load(); p.ep != e {
 		p.items, p.ep = nil, e
 	}
-	PoolPolicy.Gets++
-	mode := PoolPolicy.Mode
+	pol.gets++
+	mode := pol.mode
 	if mode == 3 {
-		mode = t.Choose(3, "pool-get-mode")
+		mode = pol.tape.Choose(3, "pool-get-mode")
 	}
 	if len(p.items) == 0 || mode == 2 {
-		PoolPolicy.Fresh++
+		pol.fresh++
 		if p.New == nil {
 			return nil
 		}
@@ -233,11 +238,11 @@ func (p *Pool) Get() any {
 	}
 	i := len(p.items) - 1
 	if mode == 1 {
-		i = t.Choose(len(p.items), "pool-get-index")
+		i = pol.tape.Choose(len(p.items), "pool-get-index")
 	}
 	x := p.items[i]
 	p.items = append(p.items[:i], p.items[i+1:]...)
-	PoolPolicy.Reused++
+	pol.reused++
 	return x
 }
 
@@ -245,17 +250,18 @@ func (p *Pool) Put(x any) {
 	if x == nil {
 		return
 	}
-	PoolPolicy.mu.Lock()
-	if PoolPolicy.Tape == nil {
-		PoolPolicy.mu.Unlock()
+	pol := policy.Load()
+	if pol == nil {
+		p.once.Do(func() { p.real.New = p.New })
 		p.real.Put(x)
 		return
 	}
+	pol.mu.Lock()
 	if e := epoch.Load(); p.ep != e {
 		p.items, p.ep = nil, e
 	}
 	if len(p.items) < 64 {
 		p.items = append(p.items, x)
 	}
-	PoolPolicy.mu.Unlock()
+	pol.mu.Unlock()
 }
